@@ -88,11 +88,19 @@ def structure_doc(rng):
     d.objects[cyc_a.n] = {b"Fwd": cyc_b, b"Self": cyc_a, b"S": shared}
     strm = d.add(Stream({b"Ref": shared, b"Nothing": None, b"Gone": Ref(free_id), b"Sub": {b"Deep": [cyc_a]}},
                         bytes(rng.randrange(256) for _ in range(rng.choice([0, 1, 40])))))
+    # stream parameters in indirect objects: the stream is kept as it is in this mode, so the references survive and the objects
+    # behind them (reachable only through /Filter and /DecodeParms) are eligible like any other
+    import zlib
+    inner_parms = d.add({b"Predictor": 1})
+    strm_params = d.add(Stream({b"Filter": d.add([N("FlateDecode")]), b"DecodeParms": d.add([inner_parms])}, zlib.compress(b"indirect parameter arrays")))
+    strm_params2 = d.add(Stream({b"Filter": d.add(N("FlateDecode")), b"DecodeParms": d.add({b"Predictor": 1, b"Columns": rng.choice([1, 4])})},
+                                zlib.compress(b"indirect name and dictionary")))
+    strm_empty = d.add(Stream({b"Kind": N("Empty")}, b""))
     # not referenced from anywhere: must not be written
     d.add({b"Unreferenced": shared})
     d.add(Stream({b"Orphan": True}, b"orphan data"))
     items = [null_obj, Ref(free_id), Ref(far_id), None, sig_plain, sig_indirect_type, sig_no_contents, sig_null_contents,
-             sig_dangling_range, sig_no_type, cyc_a, strm, shared, name_sig]
+             sig_dangling_range, sig_no_type, cyc_a, strm, shared, name_sig, strm_params, strm_params2, strm_empty]
     rng.shuffle(items)
     cat[b"Things"] = items
     cat[b"Nulls"] = {b"Direct": None, b"ToNull": null_obj, b"ToFree": Ref(free_id), b"ToFar": Ref(far_id), b"Kept": shared}
